@@ -2,7 +2,7 @@
    Statements only; proofs in Hostlist/HLPrintFacts.v.
    In the model every store into the caller's buffer is bounds-checked against the size
    given (the buffer IS a list of that many bytes) and an out-of-range store is Fault. *)
-From PV Require Import Base.DecimalFacts Hostlist.HLDefs Hostlist.HLFacts Hostlist.HLPrint Hostlist.HLPrintFacts.
+From PV Require Import Base.DecimalFacts Hostlist.HLDefs Hostlist.HLFacts Hostlist.HLPrint Hostlist.HLPrintFacts Hostlist.HLRangedFit.
 Local Open Scope N_scope.
 
 Definition no_fault {A} (o : outcome A) : Prop := match o with Fault _ => False | _ => True end.
@@ -21,6 +21,37 @@ Theorem C14_ranged_terminated : forall l buf b r, Forall hr_ok l -> buf <> [] ->
   ranged_string l buf = Ok (b, r) -> length b = length buf /\ exists t, cstring b = Some t.
 Proof. exact ranged_terminated. Qed.
 Print Assumptions C14_ranged_terminated.
+
+(* compressed form, when it fits: the buffer receives exactly [ranged_text l] - a pure function of the list -, terminated, and its
+   length is what is reported; so the result does not depend on the buffer's size or on what the buffer held before.
+   [ranged_text] is the bracket groups joined by commas ([gtexts]: prefix, then - if the group has more than one host -
+   '[', the ranges separated by commas, ']').  The reading back of that text is the subject of the correspondence check
+   (every printed text is parsed by the implementation and by the parser model), not of a theorem. *)
+Theorem C14_ranged_fit : forall l buf, ~ In 0 (ranged_text l) -> (length (ranged_text l) < length buf)%nat ->
+  exists b, ranged_string l buf = Ok (b, Some (length (ranged_text l))) /\ cstring b = Some (ranged_text l).
+Proof. exact ranged_fit. Qed.
+Print Assumptions C14_ranged_fit.
+
+Theorem C14_ranged_fit_independent : forall l buf1 buf2 b1 b2 r1 r2, ~ In 0 (ranged_text l) ->
+  (length (ranged_text l) < length buf1)%nat -> (length (ranged_text l) < length buf2)%nat ->
+  ranged_string l buf1 = Ok (b1, r1) -> ranged_string l buf2 = Ok (b2, r2) ->
+  r1 = r2 /\ cstring b1 = cstring b2.
+Proof. exact ranged_fit_independent. Qed.
+Print Assumptions C14_ranged_fit_independent.
+
+Theorem C14_ranged_text_groups : forall l, Forall named l -> ranged_text l = join 44 (gtexts (S (length l)) l).
+Proof. exact ranged_text_groups. Qed.
+Print Assumptions C14_ranged_text_groups.
+
+Example C14_ranged_fit_nonvacuous :
+  let l := [mkhr [97] 8 11 1 false; mkhr [97] 13 13 1 false; mkhr [98] 0 0 0 true; mkhr [99] 5 5 3 false] in
+  ~ In 0 (ranged_text l) /\ Forall named l /\
+  ranged_text l = [97;91;56;45;49;49;44;49;51;93;44;98;44;99;48;48;53] /\      (* a[8-11,13],b,c005 *)
+  gtexts (S (length l)) l = [[97;91;56;45;49;49;44;49;51;93]; [98]; [99;48;48;53]].
+Proof.
+  cbn zeta. split; [vm_compute; intuition discriminate|]. split; [repeat constructor; unfold named; cbn; congruence|].
+  split; vm_compute; reflexivity.
+Qed.
 
 (* expanded form: exact characterisation.  It fits iff the comma-joined expansion is
    shorter than the buffer; then the text is exactly that and the length is reported;
